@@ -9,7 +9,7 @@ Local Open Scope N_scope.
 Definition reads {A} (p : rd -> option (A * rd)) (bits : list bool) (x : A) : Prop :=
   forall r rest, rd_wf r -> rd_bits r = bits ++ rest ->
     exists r', p r = Some (x, r') /\ rd_bits r' = rest /\ rd_wf r'
-               /\ rd_pos r' = rd_pos r + N.of_nat (length bits) /\ (exists k, r_bytes r' = skipn k (r_bytes r)).
+               /\ rd_pos r' = rd_pos r + N.of_nat (length bits) /\ rd_adv r r'.
 
 Lemma reads_rbits n v : v < 2 ^ n -> reads (rbits n) (bits_msb (N.to_nat n) v) v.
 Proof.
@@ -22,8 +22,8 @@ Lemma reads_runary (q : nat) : reads runary (repeat false q ++ [true]) (N.of_nat
 Proof.
   intros r rest Hwf Hb. rewrite <- app_assoc in Hb. cbn [app] in Hb.
   destruct (runary_spec r q rest Hwf Hb) as (r' & E & H1 & H2 & H3 & H4).
-  exists r'. rewrite app_length, repeat_length. cbn [length]. repeat split; try assumption; try apply H2.
-  rewrite H3. lia.
+  exists r'. rewrite app_length, repeat_length. cbn [length]. split; [exact E|]. split; [exact H1|]. split; [exact H2|].
+  split; [rewrite H3; lia | exact H4].
 Qed.
 
 Lemma reads_rsigned n x :
@@ -85,16 +85,15 @@ Qed.
 Lemma reads_sample p q r : r < 2 ^ p ->
   forall rd0 rest, rd_wf rd0 -> rd_bits rd0 = sample_bits p q r ++ rest ->
   exists r1 r2, runary rd0 = Some (q, r1) /\ rbits p r1 = Some (r, r2) /\ rd_bits r2 = rest /\ rd_wf r2
-                /\ rd_pos r2 = rd_pos rd0 + q + 1 + p /\ (exists k, r_bytes r2 = skipn k (r_bytes rd0)).
+                /\ rd_pos r2 = rd_pos rd0 + q + 1 + p /\ rd_adv rd0 r2.
 Proof.
   intros Hr rd0 rest Hwf Hb. unfold sample_bits in Hb. rewrite <- app_assoc in Hb. cbn [app] in Hb.
-  destruct (runary_spec rd0 (N.to_nat q) _ Hwf Hb) as (r1 & E1 & Hb1 & Hwf1 & Hp1 & (k1 & Hk1)).
+  destruct (runary_spec rd0 (N.to_nat q) _ Hwf Hb) as (r1 & E1 & Hb1 & Hwf1 & Hp1 & Hk1).
   rewrite N2Nat.id in E1, Hp1.
-  destruct (reads_rbits p r Hr r1 rest Hwf1 Hb1) as (r2 & E2 & Hb2 & Hwf2 & Hp2 & (k2 & Hk2)).
+  destruct (reads_rbits p r Hr r1 rest Hwf1 Hb1) as (r2 & E2 & Hb2 & Hwf2 & Hp2 & Hk2).
   exists r1, r2. rewrite bits_msb_length, N2Nat.id in Hp2.
-  repeat split; try assumption; try apply Hwf2.
-  - lia.
-  - exists (k1 + k2)%nat. rewrite Hk2, Hk1. apply skipn_skipn'.
+  split; [exact E1|]. split; [exact E2|]. split; [exact Hb2|]. split; [exact Hwf2|].
+  split; [lia | exact (rd_adv_trans _ _ _ Hk1 Hk2)].
 Qed.
 
 Lemma reads_partition_samples p : forall qs rs,
@@ -103,17 +102,17 @@ Lemma reads_partition_samples p : forall qs rs,
 Proof.
   induction qs as [|q qs IH]; intros [|r rs] Hl Hq Hr; cbn [length] in Hl; try discriminate.
   - intros rd0 rest Hwf Hb. exists rd0. cbn [p_partition_samples part_bits app length] in *.
-    repeat split; try assumption; try apply Hwf; [lia | exists 0%nat; reflexivity].
+    fin5 Hwf; [lia | apply rd_adv_refl].
   - inversion Hq as [|? ? Hq1 Hq2]; inversion Hr as [|? ? Hr1 Hr2]; subst.
     intros rd0 rest Hwf Hb. cbn [part_bits] in Hb. rewrite <- app_assoc in Hb.
-    destruct (reads_sample p q r Hr1 rd0 _ Hwf Hb) as (r1 & r2 & E1 & E2 & Hb2 & Hwf2 & Hp2 & (k2 & Hk2)).
-    destruct (IH rs ltac:(lia) Hq2 Hr2 r2 rest Hwf2 Hb2) as (r3 & E3 & Hb3 & Hwf3 & Hp3 & (k3 & Hk3)).
+    destruct (reads_sample p q r Hr1 rd0 _ Hwf Hb) as (r1 & r2 & E1 & E2 & Hb2 & Hwf2 & Hp2 & Hk2).
+    destruct (IH rs ltac:(lia) Hq2 Hr2 r2 rest Hwf2 Hb2) as (r3 & E3 & Hb3 & Hwf3 & Hp3 & Hk3).
     exists r3. cbn [length p_partition_samples]. rewrite E1, E2, E3.
     rewrite (N.mod_small q) by exact Hq1.
-    repeat split; try assumption; try apply Hwf3.
+    fin5 Hwf3.
     + rewrite Hp3, Hp2. cbn [part_bits]. rewrite app_length. unfold sample_bits.
       rewrite app_length, repeat_length. cbn [length]. rewrite bits_msb_length. lia.
-    + exists (k2 + k3)%nat. rewrite Hk3, Hk2. apply skipn_skipn'.
+    + exact (rd_adv_trans _ _ _ Hk2 Hk3).
 Qed.
 
 (* ---- partitions ---- *)
@@ -180,12 +179,12 @@ Proof.
   induction params as [|p ps IH]; intros first part warm qs rs skipW Hw Hp Hr Hq Hlq Hlr Hzq Hzr rd0 rest Hwf Hb.
   - cbn [length Nat.mul] in Hlq, Hlr. destruct qs; [|discriminate]. destruct rs; [|discriminate].
     exists rd0. cbn [p_partitions parts_bits length app] in *.
-    repeat split; try assumption; try apply Hwf; [lia | exists 0%nat; reflexivity].
+    fin5 Hwf; [lia | apply rd_adv_refl].
   - inversion Hp as [|? ? Hp1 Hp2]; subst.
     cbn [rems_ok] in Hr. apply Bool.andb_true_iff in Hr. destruct Hr as [Hr1 Hr2].
     cbn [length] in Hlq, Hlr.
     cbn [parts_bits] in Hb. rewrite <- !app_assoc in Hb.
-    destruct (reads_rbits 4 p ltac:(exact Hp1) rd0 _ Hwf Hb) as (r1 & E1 & Hb1 & Hwf1 & Hp_1 & (k1 & Hk1)).
+    destruct (reads_rbits 4 p ltac:(exact Hp1) rd0 _ Hwf Hb) as (r1 & E1 & Hb1 & Hwf1 & Hp_1 & Hk1).
     assert (Hskip : (skipW <= part)%nat) by (unfold skipW; destruct first; lia).
     set (qpart := skipn skipW (firstn part qs)) in *. set (rpart := skipn skipW (firstn part rs)) in *.
     assert (Hlen_q : length qpart = (part - skipW)%nat) by (unfold qpart; rewrite skipn_length, firstn_length; lia).
@@ -195,20 +194,20 @@ Proof.
     destruct (reads_partition_samples p qpart rpart ltac:(lia)
                 ltac:(apply Forall_skipn; apply Forall_firstn; exact Hq)
                 ltac:(apply Forall_skipn; apply forallb_Forall_ltb; exact Hr1)
-                r1 _ Hwf1 Hb1) as (r2 & E2 & Hb2 & Hwf2 & Hp_2 & (k2 & Hk2)).
+                r1 _ Hwf1 Hb1) as (r2 & E2 & Hb2 & Hwf2 & Hp_2 & Hk2).
     destruct (IH false part warm (skipn part qs) (skipn part rs) Hw Hp2 Hr2
                 ltac:(apply Forall_skipn; exact Hq)
                 ltac:(rewrite skipn_length; lia) ltac:(rewrite skipn_length; lia) eq_refl eq_refl
-                r2 rest Hwf2 Hb2) as (r3 & E3 & Hb3 & Hwf3 & Hp_3 & (k3 & Hk3)).
+                r2 rest Hwf2 Hb2) as (r3 & E3 & Hb3 & Hwf3 & Hp_3 & Hk3).
     exists r3. cbn [length p_partitions]. change (rbits 4 rd0) with (rbits 4 rd0). rewrite E1. rewrite Hsk.
     replace (N.to_nat (N.of_nat part - N.of_nat skipW)) with (length qpart) by lia.
     rewrite E2, E3. rewrite Nat2N.id.
     rewrite !app_assoc. unfold qpart, rpart.
     rewrite (zeros_then_skip skipW part qs Hskip Hzq), (zeros_then_skip skipW part rs Hskip Hzr), !firstn_skipn.
-    repeat split; try assumption; try apply Hwf3.
+    fin5 Hwf3.
     + rewrite Hp_3, Hp_2, Hp_1. cbn [parts_bits]. fold qpart rpart.
       rewrite !app_length, !Nat2N.inj_add. change (N.to_nat 4) with 4%nat. lia.
-    + exists (k1 + (k2 + k3))%nat. rewrite Hk3, Hk2, Hk1, !skipn_skipn'. reflexivity.
+    + exact (rd_adv_trans _ _ _ Hk1 (rd_adv_trans _ _ _ Hk2 Hk3)).
 Qed.
 
 (* ---- the whole residual ---- *)
@@ -275,8 +274,8 @@ Proof.
   assert (Hplen_le : plen <= r_block r) by nia.
   intros rd0 rest Hwf Hb. unfold residual_bits in Hb. fold pc plen in Hb.
   change (false :: false :: ?x) with ([false; false] ++ x) in Hb. rewrite <- !app_assoc in Hb.
-  destruct (reads_rbits 2 0 ltac:(reflexivity) rd0 _ Hwf Hb) as (r1 & E1 & Hb1 & Hwf1 & Hp1 & (k1 & Hk1)).
-  destruct (reads_rbits 4 (r_order r) ltac:(change (2 ^ 4) with 16; lia) r1 _ Hwf1 Hb1) as (r2 & E2 & Hb2 & Hwf2 & Hp2 & (k2 & Hk2)).
+  destruct (reads_rbits 2 0 ltac:(reflexivity) rd0 _ Hwf Hb) as (r1 & E1 & Hb1 & Hwf1 & Hp1 & Hk1).
+  destruct (reads_rbits 4 (r_order r) ltac:(change (2 ^ 4) with 16; lia) r1 _ Hwf1 Hb1) as (r2 & E2 & Hb2 & Hwf2 & Hp2 & Hk2).
   assert (Hparams_len : length (r_params r) = N.to_nat pc) by lia.
   assert (Hlen_q : length (r_quot r) = (length (r_params r) * N.to_nat plen)%nat).
   { rewrite Hparams_len. apply Nat2N.inj. rewrite Nat2N.inj_mul, !N2Nat.id. lia. }
@@ -287,7 +286,7 @@ Proof.
   destruct (reads_partitions (r_params r) true (N.to_nat plen) (r_warmup r) (r_quot r) (r_rem r)
               Hwp H16 Hrem Hq Hlen_q Hlen_r
               (forallb_zero_firstn _ _ Hwq Hz) (forallb_zero_firstn _ _ Hwr Hzr)
-              r2 rest Hwf2 Hb2) as (r3 & E3 & Hb3 & Hwf3 & Hp3 & (k3 & Hk3)).
+              r2 rest Hwf2 Hb2) as (r3 & E3 & Hb3 & Hwf3 & Hp3 & Hk3).
   exists r3. unfold p_residual. rewrite E1. change (1 <? 0) with false. cbv iota. change (0 =? 0) with true. cbv iota.
   rewrite E2. fold pc plen. rewrite Hblk, N.eqb_refl. cbn [negb orb].
   destruct (N.ltb_spec plen (r_warmup r)) as [Hlt|_]; [lia|].
@@ -298,5 +297,5 @@ Proof.
   - rewrite Hp3, Hp2, Hp1. rewrite !bits_msb_length. unfold residual_bits. fold pc plen.
     cbn [length]. rewrite app_length, bits_msb_length, !Nat2N.inj_succ, Nat2N.inj_add.
     change (N.to_nat 2) with 2%nat. change (N.to_nat 4) with 4%nat. lia.
-  - exists (k1 + (k2 + k3))%nat. rewrite Hk3, Hk2, Hk1, !skipn_skipn'. reflexivity.
+  - exact (rd_adv_trans _ _ _ Hk1 (rd_adv_trans _ _ _ Hk2 Hk3)).
 Qed.
